@@ -247,9 +247,11 @@ LARGE_FUNCS = ("floyd_warshall", "dijkstra_edges", "bellman_ford", "kruskal", "b
 def large_cases():
     """(function, n, edges) over larger structured graphs: the digraphs of C11's large family, the undirected ones of C13's
     (read as directed arc lists where the function is directed), a 7-node kruskal instance per union order"""
-    from checks import c11, c13
+    from checks import c11, c13, c14
 
     gs = [(nm, n, [tuple(e) for e in es]) for nm, n, es in c11.large_graphs()] + [(nm, n, [tuple(e) for e in es]) for nm, n, es in c13.large_graphs()]
+    # the directed lollipops and fans of C14 (paths into cycles around 16 / 32 / 64 nodes, wide layers with a duplicate edge)
+    gs += [(nm, n, [(u, v, 1 + (u + 2 * v) % 3) for u in range(n) for v in adj[u]]) for nm, n, adj in c14.large_graphs() if n <= 70 and (nm.startswith("lollipop") or nm.startswith("fan_"))]
     gs.append(("kruskal_rank_merge_7", 7, [(0, 1, 1), (2, 3, 2), (0, 2, 3), (4, 5, 4), (1, 5, 5), (4, 2, 6), (6, 0, 7)]))
     gs.append(("kruskal_rank_merge_9", 9, [(1, 0, 1), (3, 2, 2), (5, 4, 3), (7, 6, 4), (3, 1, 5), (7, 5, 6), (7, 3, 7), (8, 6, 8), (2, 8, 9)]))
     out = []
